@@ -122,6 +122,22 @@ def run(ctx):
                 if bad:
                     ctx.violation('init', 'realization %d: %s' % (i, bad), {'case': cases[c - 1000], 'realization': i, 'stream_offset': off})
                     break
+    # ---- the front end: each of its 8 selections must hand the generator seeded with --s to the library (result files = the library's run from
+    #      RandomGenerator(seed), bit for bit at 6 digits; the info file lists that seed)
+    import cli
+    if ctx.bdir:
+        wdc = vf.workdir()
+        cmetas, clines, ccid = [], [], 720000
+        for variant in gen.VARIANTS:
+            for j in range(ctx.budget(1, 8)):
+                line, m = cli.make_case(rng.fork('cs%d' % ccid), ccid, wdc, variant=variant)
+                clines.append(line)
+                cmetas.append(m)
+                ccid += 1
+        resc = ctx.component('K-E2E(library from RandomGenerator(--s), implementation only)', clines, model=False)
+        if resc:
+            stc = cli.run_and_compare(ctx, ctx.bdir, cmetas, resc['impl'])
+            n_eval += stc['runs']
     ctx.oracle.update({'evaluations': n_eval, 'distinct_nontrivial': len(keys),
                        'rule': 'whole runs, all 8 variants, r <= 4, graphs with sink/source vertices: the entries observed at realization_start are compared (as multisets for the random starts, positionally for file value + 0.1 x draw) with consecutive segments of the reference std::mt19937/uniform stream of the seed; zero rows, range [0,1), symmetry. distinct = (variant, r > 1, some vertex outside u_list)'})
     ctx.samples = [{'case': cases[0][:300]}]
